@@ -17,6 +17,7 @@ var (
 	}
 	portPool  = []uint32{80, 8080, 9000, 9090, 8081, 81}
 	queryPort = []uint32{80, 8080, 9000, 9090, 8081, 81, 7777} // portPool and a port nothing mentions
+	awEvery   = 150                                            // one case in awEvery of stream ambient has an op on the real index
 	realModes = []string{"UNSET", "DISABLE", "PERMISSIVE", "STRICT"}
 	drToks    = []string{"nil", "nil", "nil", "DISABLE", "SIMPLE", "MUTUAL", "ISTIO_MUTUAL"}
 )
@@ -170,6 +171,35 @@ func gen(stream string, seed uint64, n int, outp string) {
 				out.Line("ks", wire.EncList(l))
 				out.Line("go", wire.EncList(l))
 			}
+		}
+		awChance := awEvery * 6
+		if len(selPols) > 0 {
+			awChance = awEvery // mostly where a selector policy can tell label sets apart
+		}
+		if stream == "ambient" && r.Chance(1, awChance) {
+			// the REAL ambient index (krt pipeline on a fake kube client, ~0.1 s per op): a pod, a WorkloadEntry
+			// (spec labels / metadata labels) or a ServiceEntry with an inline endpoint (endpoint labels /
+			// resource labels), labels aimed at a selector policy on either side
+			aim := func() [][2]string {
+				if len(selPols) > 0 && r.Chance(2, 3) {
+					l := append([][2]string(nil), wire.Pick(r, selPols).sel...)
+					if r.Chance(1, 4) {
+						l = append(l, [2]string{"x", "y"})
+					}
+					return l
+				}
+				return wire.Pick(r, labelPool)
+			}
+			ns := pickNs()
+			if len(selPols) > 0 && r.Chance(3, 4) {
+				ns = wire.Pick(r, selPols).ns
+			}
+			kind := wire.Pick(r, []string{"pod", "we", "se", "se"})
+			meta := [][2]string(nil)
+			if kind != "pod" && r.Chance(2, 3) {
+				meta = aim()
+			}
+			out.Line("aw", kind, wire.Enc(ns), encLabels(aim()), encLabels(meta))
 		}
 		nq := 1 + r.Intn(3)
 		var again [][]string // compose: queries repeated after a spec edit (the version must change with the spec)
